@@ -96,4 +96,21 @@ pub(crate) mod verif_kani {
             assert!(it.pos == pos + 1);
         }
     }
+    /// complete (all 2^32 (start, count) pairs, struct literal as the public fields allow): the read limits of the protocol -
+    /// a bit read is accepted iff the range is valid and has at most 2000 points, a register read iff valid and at most 125
+    #[kani::proof]
+    pub(crate) fn k_address_range_limits() {
+        let start: u16 = kani::any();
+        let count: u16 = kani::any();
+        let valid = count >= 1 && (start as u32) + (count as u32) <= 65536;
+        let r = AddressRange { start, count };
+        match r.of_read_bits() {
+            Ok(x) => { assert!(valid && count <= 2000); assert!(x.get().start == start && x.get().count == count); }
+            Err(_) => assert!(!valid || count > 2000),
+        }
+        match r.of_read_registers() {
+            Ok(x) => { assert!(valid && count <= 125); assert!(x.get().start == start && x.get().count == count); }
+            Err(_) => assert!(!valid || count > 125),
+        }
+    }
 }
